@@ -29,6 +29,8 @@ func checkC09(c *Ctx) {
 	r021(c, "R09.8 deploy-disposes-only-what-left-service")
 	// ... and what left service is the occupant of the slot that was overwritten (shared with C02)
 	rSlotSwap(c, "R09.9 replaced-balancer-is-the-slot's-previous-occupant")
+	rRotationOnlyRefreshed(c, "R09.10 rotation-written-only-by-the-refresh")
+	rDrainKeepsHealthVerdict(c, "R09.11 drain-keeps-the-health-verdict")
 }
 
 func r092(c *Ctx) {
@@ -571,4 +573,24 @@ func r097(c *Ctx) {
 		}
 	}
 	c.ob(rule, "nextTarget/returns healthy[cursor]", nt.Pos(), okRet, true, "the target returned must be lb.healthy[the advanced cursor]")
+}
+
+// rRotationOnlyRefreshed: the rotation (LoadBalancer.healthy) is written by nothing but the refresh that rebuilds it from
+// the targets' current states (and the constructor): anything else that empties or replaces it makes healthy targets
+// unreachable - requests, including held ones released by resume, are then refused with 503 (shared by C09, C07).
+func rRotationOnlyRefreshed(c *Ctx, rule string) {
+	c.floor(rule, 1)
+	healthyF := c.field("LoadBalancer", "healthy")
+	uht := c.method("LoadBalancer", "updateHealthyTargets")
+	n := 0
+	for _, w := range c.writesOfField(healthyF) {
+		n++
+		o := outer(w.fn)
+		ok := o == uht || fname(o) == "server.NewLoadBalancer"
+		if _, isAlloc := w.base.(*ssa.Alloc); isAlloc {
+			ok = true // a balancer under construction
+		}
+		c.ob(rule, "write LoadBalancer.healthy <- "+fname(o), w.instr.Pos(), ok, true, "the rotation may be written only by updateHealthyTargets (which rebuilds it from every target's current state) and while the balancer is being constructed")
+	}
+	c.ob(rule, "rotation-has-a-writer", uht.Pos(), n >= 1, false, "")
 }
